@@ -182,7 +182,7 @@ theorem C11_reach (w : World) (f : Nat) (c : Cmd) :
 def wStd : World :=
   { conns := [⟨.auth, 1001⟩, ⟨.auth, 1002⟩, ⟨.auth, 1003⟩, ⟨.unauth, 0⟩, ⟨.bare, 0⟩],
     maps := [⟨1001, 1002, true, true⟩, ⟨0, 1002, true, true⟩], codes := [], doms := [1001] }
-def cmdOf (ct : Nat) (m g d : Int) : Cmd := ⟨ct, false, "0", "0", "-", false, m, g, 0, d⟩
+def cmdOf (ct : Nat) (m g d : Int) : Cmd := ⟨ct, false, "0", "0", "-", false, m, g, 0, d, 0⟩
 
 /-- traffic report for a mapping from a connection that never authenticated: the counters change -/
 theorem C11_witness_traffic_unauth :
